@@ -244,13 +244,13 @@ Lemma find_edges_in tol t : t <> [] -> xin t ->
   (lo <= e_lwr (find_edges func tol t) /\ e_lwr (find_edges func tol t) <= hi) /\
   (lo <= e_upr (find_edges func tol t) /\ e_upr (find_edges func tol t) <= hi).
 Proof.
-  intros Hne Hx. unfold find_edges. cbv zeta. simpl.
+  intros Hne Hx. unfold find_edges. cbv zeta. cbn [e_lwr e_upr].
   split.
-  - match goal with |- context [if ?c then _ else _] => destruct c end; simpl.
+  - match goal with |- context [if ?c then _ else _] => destruct c end; cbn [fst].
     + apply Hx, tnth_in, Hne.
     + apply bsearch_in; apply Hx, tnth_in, Hne.
   - match goal with |- context [fst (if ?c then (?a, []) else bsearch _ _ _ _ ?b _ ?d _)] =>
-      destruct c end; simpl.
+      destruct c end; cbn [fst].
     + apply Hx, tnth_in, Hne.
     + apply bsearch_in; apply Hx, tnth_in, Hne.
 Qed.
@@ -303,7 +303,7 @@ Lemma grid_inside_bounds_aux tol points gs :
   (forall x, In x points -> lo <= x /\ x <= hi) ->
   forall g, In g (fst (fst (evaluate_search func tol points gs))) -> lo <= g /\ g <= hi.
 Proof.
-  intros Hp Hg Hx g Hin. unfold evaluate_search in Hin. cbv zeta in Hin. simpl in Hin.
+  intros Hp Hg Hx g Hin. unfold evaluate_search in Hin. cbv zeta in Hin. cbn [fst snd] in Hin.
   set (t0 := map (fun x => (x, func x)) points) in *.
   assert (Hne : t0 <> []) by (unfold t0; destruct points; [simpl in Hp; lia | discriminate]).
   assert (Hx0 : xin t0).
